@@ -205,6 +205,11 @@ def run(ctx):
         times = sorted(rng.uniform(0, 0.08) for _ in range(k))
         if rng.random() < 0.5:
             times[0] = 0.0
+        if k >= 2 and rng.random() < 0.3:
+            # two change points at the same instant (legal: the schedule only has to be non-decreasing); the later
+            # entry is the one that holds from then on
+            j = rng.randrange(1, k)
+            times[j] = times[j - 1]
         amps = [rng.uniform(-1, 4) for _ in range(k)] if rng.random() < 0.5 else [rng.uniform(-4, 4) for _ in range(k)]
         duration = rng.choice([0.05, 0.1, rng.uniform(0.02, 0.12)])
         dts = [0.001, 0.013, 0.03, 0.2, duration / 7]
@@ -284,8 +289,14 @@ def run(ctx):
     for _ in range(ctx.n(150)):
         nn = rng.randrange(1, 6)
         g = np.random.default_rng(rng.randrange(2 ** 32))
+        vth = g.uniform(0.2, 2, nn)
+        if rng.random() < 0.25:
+            vth = g.integers(1, 4, nn)                  # parameters of another dtype (integer thresholds)
+            ctx.count("cuba_integer_threshold")
+        elif rng.random() < 0.2:
+            vth = vth.astype(np.float32)
         node = nir.CubaLIF(tau_syn=g.uniform(1e-3, 0.1, nn), tau_mem=g.uniform(1e-3, 0.1, nn), r=g.uniform(-2, 2, nn),
-                           v_leak=g.uniform(-1, 1, nn), v_threshold=g.uniform(0.2, 2, nn), w_in=g.uniform(-2, 2, nn))
+                           v_leak=g.uniform(-1, 1, nn), v_threshold=vth, w_in=g.uniform(-2, 2, nn))
         dt = 10 ** rng.uniform(-4, -2)
         m = cuba.CubaLIFImplementation(dt, node)
         I = np.zeros(nn); v = np.zeros(nn)
